@@ -136,6 +136,8 @@ def run_case(case):
         return {'status': 'rejected', 'tags': {f'design-raised:{type(exc).__name__}': 1}}
     span = equipment['Span']['default']
     si = equipment['SI']['default']
+    for d in c.settings_vs_document(equipment, eq)[:2]:
+        v('library-settings-changed', f'after design, {d}')
     power_mode = span.power_mode
     lo, hi, step = span.delta_power_range_db
     pref = si.power_dbm
